@@ -22,6 +22,7 @@ LOCAL_NAMES = [
     "chol_inverse", "chol_inverse_upper", "chol_of_kron", "chol_of_blockdiag", "chol_of_batchrepeat", "chol_of_diag",
     "blockdiag_kron", "blockdiag_addeddiag", "blockinter_toeplitz", "batchrepeat_kron", "batchrepeat_blockdiag",
     "dense_expand", "toeplitz_repeat", "lrrad_const", "lrrad_fullrank", "sumbatch_addeddiag", "psdsum_kron_diag",
+    "cat_batch_psd",
 ]
 ZOO_PSD_NAMES = [
     "dense_psd", "diag", "constdiag", "identity", "toeplitz", "chol_lower", "chol_upper", "kron2", "kron_diag", "kpad_const",
@@ -32,8 +33,8 @@ ZOO_PSD_NAMES = [
 ALL_NAMES = ZOO_PSD_NAMES + LOCAL_NAMES
 TRI_NAMES = [
     "tri_lower", "tri_upper", "tri_lower_T", "tri_upper_T", "tri_of_batchrepeat_lower", "tri_of_batchrepeat_upper",
-    "tri_of_blockdiag_lower", "tri_of_blockdiag_upper", "tri_of_constmul", "tri_plus_diag", "tri_inverse_lower",
-    "tri_inverse_upper", "kron_tri_lower", "kron_tri_upper", "kron_tri_lower_T", "tri_of_diag",
+    "tri_of_blockdiag_lower", "tri_of_blockdiag_upper", "tri_times_const", "tri_plus_diag", "tri_inverse_lower",
+    "tri_inverse_upper", "kron_tri_lower", "kron_tri_upper", "kron_tri_lower_T",
 ]
 
 
@@ -126,10 +127,22 @@ def helpers():
     H.WarnCapture = WarnCapture
 
     # ------------------------------------------------------------------ settings grid
-    def cfg_ctx(cfg, N):
+    def cg_tol(cfg, dt):
+        """configured CG tolerance; 'tight' = the tightest value the dtype can reach before the solver's own floor
+        (otherwise float32 runs burn all 1000 iterations without ever meeting the tolerance)"""
+        v = cfg.get("cg_tol", 1.0)
+        if v == "tight":
+            return 1e-7 if dt == f64 else 1e-4
+        return float(v)
+
+    H.cg_tol = cg_tol
+
+    def cfg_ctx(cfg, N, dt=f64):
         """context for one settings combination.  cfg: dict; values 'N', 'N-1', '2N+20' are resolved with
-        the operator size N."""
+        the operator size N, 'tight' with the dtype."""
         def rv(v):
+            if v == "tight":
+                return cg_tol(cfg, dt)
             if v == "N":
                 return N
             if v == "N-1":
@@ -464,6 +477,12 @@ def helpers():
         a = spd_spec(g, batch, n, dt, "rand", 10.0)
         return O.PsdSumLinearOperator(K, zoo._UserOp(a)), Kd + a
 
+    @case("cat_batch_psd", cond=1e2)
+    def _(g, dt, batch, n):  # concatenation along a batch dimension of PSD batches
+        rest = batch[1:] if batch else ()
+        a, b = spd_spec(g, (2, *rest), n, dt, "rand", 20.0), spd_spec(g, (1, *rest), n, dt, "rand", 30.0)
+        return O.CatLinearOperator(Dn(a), Dn(b), dim=0), torch.cat([a, b], 0)
+
     assert sorted(L) == sorted(LOCAL_NAMES), sorted(set(L) ^ set(LOCAL_NAMES))
     for nm in ZOO_PSD_NAMES:
         c = zoo.BY_NAME[nm]
@@ -527,10 +546,10 @@ def helpers():
         op = O.KroneckerProductTriangularLinearOperator(O.TriangularLinearOperator(A), O.TriangularLinearOperator(B))
         return op._transpose_nonbatch(), kron(A, B).mT.clone()
 
-    @tcase("tri_of_constmul", False)
-    def _(g, dt, batch, n):  # non-dense data without its own _cholesky_solve: the NotImplementedError fallback
+    @tcase("tri_times_const", False)
+    def _(g, dt, batch, n):  # public route to non-dense data (ConstantMul) without its own _cholesky_solve
         t = tri_signed(g, batch, n, dt, False)
-        return O.TriangularLinearOperator(O.ConstantMulLinearOperator(Dn(t), torch.tensor(2.0, dtype=dt))), t * 2.0
+        return O.TriangularLinearOperator(t) * 2.0, t * 2.0
 
     @tcase("tri_plus_diag", False)
     def _(g, dt, batch, n):
@@ -539,28 +558,38 @@ def helpers():
         d = d * torch.sign(t.diagonal(dim1=-1, dim2=-2))  # keep it well conditioned
         return O.TriangularLinearOperator(t) + Dg(d), t + torch.diag_embed(d)
 
-    @tcase("tri_of_diag", False)
-    def _(g, dt, batch, n):
-        d = posdiag(g, batch, n, dt)
-        return O.TriangularLinearOperator(Dg(d)), torch.diag_embed(d)
-
     assert sorted(T) == sorted(TRI_NAMES), sorted(set(T) ^ set(TRI_NAMES))
     H.TRI = T
 
     # ------------------------------------------------------------------ instance enumeration
-    def family(tier, names, cases=None, dtypes=None, batches=None, sizes=None, seeds=None):
+    def combos(tier, dtypes=None, batches=None, sizes=None):
+        """(dtype, batch, n) combinations.  quick: every (batch, size) pair in float64, a covering half in float32;
+        thorough: the full product with more batch shapes and sizes."""
+        quick = tier == "quick"
+        full = dtypes is not None or batches is not None or sizes is not None
+        batches = batches or (zoo.BATCHES_QUICK if quick else zoo.BATCHES_QUICK + [(1, 2), (3, 1, 2)])
+        sizes = sizes or (zoo.SIZES_QUICK if quick else [1, 2, 3, 4, 6, 9])
+        dtypes = dtypes or zoo.DTYPES
+        out = []
+        for dt, (ib, batch), (i_n, n) in itertools.product(dtypes, enumerate(batches), enumerate(sizes)):
+            if quick and not full and dt == torch.float32 and (ib + i_n) % 2:
+                continue
+            out.append((dt, batch, n))
+        return out
+
+    H.combos = combos
+
+    def family(tier, names, cases=None, dtypes=None, batches=None, sizes=None, seeds=None, combos_=None):
         """yield (label, case, dt, batch, n, make) with make() -> fresh (op, dense); a fresh operator per
         evaluation so that caches of one configuration never leak into the next (histories are explicit)."""
         cases = cases or H.CASES
         quick = tier == "quick"
-        batches = batches or (zoo.BATCHES_QUICK if quick else zoo.BATCHES_QUICK + [(1, 2), (3, 1, 2)])
-        sizes = sizes or (zoo.SIZES_QUICK if quick else [1, 2, 3, 4, 6, 9])
-        dtypes = dtypes or zoo.DTYPES
         seeds = seeds or ([0] if quick else [0, 1])
         base = int(__import__("os").environ.get("VERIF_SEED", "0") or 0)
+        cb = combos_ if combos_ is not None else combos(tier, dtypes, batches, sizes)
         for nm in names:
             c = cases[nm]
-            for dt, batch, n, sd in itertools.product(dtypes, batches, sizes, seeds):
+            for (dt, batch, n), sd in itertools.product(cb, seeds):
                 if dt == torch.float32 and not getattr(c, "f32", True):
                     continue
                 s = zlib.crc32(repr((c.name, str(dt), batch, n, sd + base)).encode()) % (2 ** 31)
@@ -640,136 +669,164 @@ def helpers():
 # ==========================================================================================
 # unit functions
 
-CONFIGS = [  # (name, settings, full rhs grid?)
-    ("default", {}, True),
-    ("chol0_tol1e-6", {"mc": 0, "cg_tol": 1e-6}, True),
-    ("chol0_deftol", {"mc": 0}, False),
-    ("chol0_tol1e-2", {"mc": 0, "cg_tol": 1e-2}, False),
-    ("chol0_nosolves", {"mc": 0, "solves": False}, False),
-    ("chol0_nologprob", {"mc": 0, "log_prob": False, "cg_tol": 1e-4}, False),
-    ("mcN", {"mc": "N", "cg_tol": 1e-4}, False),
-    ("mcN-1", {"mc": "N-1", "cg_tol": 1e-4}, False),
-    ("chol0_pc3", {"mc": 0, "min_pc": 0, "max_pc": 3, "cg_tol": 1e-4}, False),
-    ("chol0_pc0", {"mc": 0, "min_pc": 0, "max_pc": 0, "cg_tol": 1e-4}, False),
-    ("chol0_pcdefault_min0", {"mc": 0, "min_pc": 0, "cg_tol": 1e-3}, False),
-    ("chol0_memeff", {"mc": 0, "memeff": True, "cg_tol": 1e-5}, False),
-    ("default_memeff", {"memeff": True}, False),
-    ("chol0_maxcg", {"mc": 0, "max_cg": "2N+20", "cg_tol": 1e-4}, False),
-    ("default_lin32", {"linalg_f32": True}, False),
+CONFIGS = [  # (name, settings, role)   role: "full" = whole rhs x left grid, "side" = two rhs kinds
+    ("default", {}, "full"),
+    ("chol0_tight", {"mc": 0, "cg_tol": "tight"}, "full"),
+    ("chol0_deftol", {"mc": 0}, "side"),
+    ("chol0_tol1e-2", {"mc": 0, "cg_tol": 1e-2}, "side"),
+    ("chol0_nosolves", {"mc": 0, "solves": False}, "side"),
+    ("chol0_nologprob", {"mc": 0, "log_prob": False, "cg_tol": 1e-4}, "side"),
+    ("mcN", {"mc": "N", "cg_tol": 1e-4}, "side"),
+    ("mcN-1", {"mc": "N-1", "cg_tol": 1e-4}, "side"),
+    ("chol0_pc3", {"mc": 0, "min_pc": 0, "max_pc": 3, "cg_tol": 1e-4}, "side"),
+    ("chol0_pc0", {"mc": 0, "min_pc": 0, "max_pc": 0, "cg_tol": 1e-4}, "side"),
+    ("chol0_pcdefault_min0", {"mc": 0, "min_pc": 0, "cg_tol": 1e-3}, "side"),
+    ("chol0_memeff", {"mc": 0, "memeff": True, "cg_tol": 1e-4}, "side"),
+    ("default_memeff", {"memeff": True}, "side"),
+    ("chol0_maxcg", {"mc": 0, "max_cg": "2N+20", "cg_tol": 1e-4}, "side"),
+    ("default_lin32", {"linalg_f32": True}, "side"),
 ]
-CFG_TINY_ITER = ("chol0_maxcg3", {"mc": 0, "max_cg": 3, "max_lq": 3, "cg_tol": 1e-6})
+CFG_TINY_ITER = ("chol0_maxcg3", {"mc": 0, "max_cg": 3, "max_lq": 3, "cg_tol": "tight"})
+# (rhs kind, left kind) pairs of the full grid
+FULL_PAIRS = [(r, "none") for r in ("vec", "mat", "mat1", "batched", "bcast1", "fewer", "mixed1", "extra")] + [
+    ("vec", "orth"), ("vec", "rect"), ("mat", "orth"), ("mat", "rect"), ("batched", "orth"), ("batched", "rect"), ("extra", "rect"),
+    ("bcast1", "rect"), ("batched", "lbc"), ("mat", "lfull")]
 
 
-def _solve_checks(H, rec, c, label, make, cfgname, cfg, rhs_kinds, left_kinds, tier, entry="method", history=None):
+def _run_history(op, history, shapes, dt, zoo):
+    """multi-step histories: leave cached factors behind before the solve under test.  A failure of the
+    history step itself belongs to another property (C05/C06) and is not recorded here."""
+    try:
+        if history == "cholesky_first":
+            op.cholesky()
+        elif history == "root_first":
+            op.root_decomposition()
+        elif history == "solve_twice":
+            op.solve(zoo.rn(zoo.gen(5), *shapes["mat"], dtype=dt))
+        elif history == "logdet_first":
+            op.logdet()
+        elif history == "rootinv_first":
+            op.root_inv_decomposition()
+        return True
+    except Exception:  # noqa
+        return False
+
+
+def _solve_checks(H, rec, c, label, make, D, kap, cfgname, cfg, pairs, tier, entry="method", history=None):
     """evaluate the C04 contract for one operator instance under one settings combination"""
     torch, zoo = H.torch, H.zoo
-    op, D = make()
+    f64 = torch.float64
     dt, N, batch = D.dtype, D.shape[-1], tuple(D.shape[:-2])
-    kap = H.kappa(D) if c.cls != "triangular" else H.kappa_general(D)
+    Dm = D.to(f64)
     g = zoo.gen(977)
     shapes = H.rhs_shapes(batch, N, tier)
-    for rk in rhs_kinds:
+    tri = c.cls == "triangular"
+    for rk, lk in pairs:
         if rk not in shapes:
             continue
         B = zoo.rn(g, *shapes[rk], dtype=dt)
-        for lk in left_kinds:
-            # left factor kinds: orth = square orthogonal (solution recoverable), rect = 2 x N, bat = batched
-            if lk == "none":
-                Lf = None
-            elif rk == "vec" and lk == "bat":
+        rb = tuple(B.shape[:-2]) if B.dim() > 1 else ()
+        ob = tuple(torch.broadcast_shapes(batch, rb))
+        if lk == "none":
+            Lf = None
+        elif lk == "orth":
+            Lf = torch.linalg.qr(zoo.rn(g, *rb, N, N, dtype=f64))[0].to(dt)
+        elif lk == "rect":
+            Lf = zoo.rn(g, *rb, 2, N, dtype=dt)
+        elif lk == "lbc":  # left factor with fewer (broadcast) batch dimensions than the rhs
+            if not rb:
                 continue
+            Lf = zoo.rn(g, 2, N, dtype=dt)
+        elif lk == "lfull":  # left factor carries the operator's batch shape, the rhs does not
+            if not batch or rb:
+                continue
+            Lf = zoo.rn(g, *batch, 2, N, dtype=dt)
+        lab = f"{label}|cfg={cfgname}|rhs={rk}|left={lk}" + (f"|hist={history}" if history else "") + (f"|via={entry}" if entry != "method" else "")
+        grp_exc = "solve_left_bcast/Solve.forward" if lk in ("lbc", "lfull") else f"solve/{c.name}"
+        op, _ = make()
+        torch.manual_seed(1234)
+        try:
+            with H.cfg_ctx(cfg, N, dt), H.LogCapture() as lc, H.WarnCapture() as wc:
+                if history and not _run_history(op, history, shapes, dt, zoo):
+                    continue
+                if entry == "method":
+                    X = op.solve(B) if Lf is None else op.solve(B, Lf)
+                elif entry == "torch":
+                    X = torch.linalg.solve(op, B)
+                elif entry == "functional":
+                    X = H.lo.solve(op, B) if Lf is None else H.lo.solve(op, B, Lf)
+        except Exception as e:  # noqa
+            import traceback
+            tb = traceback.format_exc().strip().splitlines()
+            rec.check(grp_exc, lab, False, f"raised {type(e).__name__}: {e}"[:300] + " @ " + (tb[-3].strip() if len(tb) >= 3 else ""))
+            continue
+        if isinstance(X, H.O.LinearOperator):
+            X = X.to_dense()
+        # ---- expected value / shape / dtype
+        Xe = torch.linalg.solve(Dm, H.mat(B).to(f64).expand(*ob, N, H.mat(B).shape[-1]))
+        if Lf is not None:
+            Xe = Lf.to(f64) @ Xe
+        if B.dim() == 1:
+            Xe = Xe.squeeze(-1)
+        ok_shape = torch.is_tensor(X) and tuple(X.shape) == tuple(Xe.shape)
+        sgrp = "solve_left_bcast/Solve.forward" if lk in ("lbc", "lfull") else f"solve_shape/{c.name}"
+        rec.check(sgrp, lab, ok_shape, f"shape {tuple(X.shape) if torch.is_tensor(X) else type(X)} expected {tuple(Xe.shape)}")
+        if not ok_shape:
+            continue
+        rec.check(f"solve_dtype/{c.name}", lab, X.dtype == dt, f"dtype {X.dtype} expected {dt}")
+        if not bool(torch.isfinite(X).all()):
+            rec.check(f"solve/{c.name}", lab, False, "non-finite entries in the result")
+            continue
+        # ---- which algorithm ran -> tolerance
+        lin32 = bool(cfg.get("linalg_f32"))
+        used_cg, used_lanczos = "cg" in lc.algos, "lanczos" in lc.algos
+        if not tri and H.expect_direct(cfg, N):
+            rec.check(f"method_selection/{c.name}", lab, not used_cg,
+                      f"CG ran although fast solves are off or N={N} <= max_cholesky_size (log: {lc.msgs[:3]})")
+        if Lf is not None and lk == "orth":  # recover the solution through the orthogonal left factor
+            Xs = Lf.mT.to(f64) @ H.mat(X).to(f64)
+            Xs = Xs.squeeze(-1) if B.dim() == 1 else Xs
+        else:
+            Xs = X
+        vgrp = f"solve/{c.name}" if lk == "none" else (f"solve_left/{c.name}" if lk in ("orth", "rect") else "solve_left_bcast/Solve.forward")
+        if used_cg:
+            tol = H.cg_tol(cfg, dt)
+            floor = 2e-5 if dt == f64 else 2e-3
+            if wc.cg_not_converged:
+                # the solver said so itself (NumericalWarning): the property only bounds converged solves.  With the
+                # default cap (1000 >> N) a give-up on these small well-posed systems is itself a failure.
+                capped = cfg.get("max_cg") is not None
+                r = H.cg_mean_rel_residual(Dm, Xs, B) if (Lf is None or lk == "orth") else 0.0
+                rec.check(f"solve_cg_warned/{c.name}", lab, capped or r <= 10 * max(tol, floor),
+                          f"CG gave up (NumericalWarning) at mean relative residual {r:.2e} with max_cg_iterations=1000 >> N={N}", nontrivial=not capped)
+            elif Lf is None or lk == "orth":
+                r = H.cg_mean_rel_residual(Dm, Xs, B)
+                rec.check(vgrp, lab, r <= max(tol, floor), f"CG path: mean relative residual {r:.3e} > max(cg_tolerance={tol}, floor {floor}); kappa={kap:.1e}")
             else:
-                lb = () if lk in ("orth", "rect") else tuple(torch.broadcast_shapes(batch, B.shape[:-2])) if B.dim() > 1 else ()
-                if lk == "orth":
-                    Lf = torch.linalg.qr(zoo.rn(g, N, N, dtype=torch.float64))[0].to(dt)
-                else:
-                    Lf = zoo.rn(g, *lb, 2, N, dtype=dt)
-            lab = f"{label}|cfg={cfgname}|rhs={rk}|left={lk}" + (f"|hist={history}" if history else "") + (f"|via={entry}" if entry != "method" else "")
-            op, D = make()
-            torch.manual_seed(1234)
-            try:
-                with H.cfg_ctx(cfg, N), H.LogCapture() as lc, H.WarnCapture() as wc:
-                    if history == "cholesky_first":
-                        op.cholesky()
-                    elif history == "root_first":
-                        op.root_decomposition()
-                    elif history == "solve_twice":
-                        op.solve(zoo.rn(zoo.gen(5), *shapes["mat"], dtype=dt))
-                    elif history == "logdet_first":
-                        op.logdet()
-                    if entry == "method":
-                        X = op.solve(B) if Lf is None else op.solve(B, Lf)
-                    elif entry == "torch":
-                        X = torch.linalg.solve(op, B)
-                    elif entry == "functional":
-                        X = H.lo.solve(op, B) if Lf is None else H.lo.solve(op, B, Lf)
-            except Exception as e:  # noqa
-                import traceback
-                tb = traceback.format_exc().strip().splitlines()
-                rec.check(f"solve/{c.name}", lab, False, f"raised {type(e).__name__}: {e}"[:300] + " @ " + (tb[-3].strip() if len(tb) >= 3 else ""))
-                continue
-            if isinstance(X, H.O.LinearOperator):
-                X = X.to_dense()
-            # ---- shape / dtype
-            Dm = D.to(torch.float64)
-            Xe = torch.linalg.solve(Dm, H.mat(B).to(torch.float64).expand(*torch.broadcast_shapes(batch, B.shape[:-2] if B.dim() > 1 else ()), N, H.mat(B).shape[-1]))
-            if B.dim() == 1:
-                Xe = Xe.squeeze(-1)
-            if Lf is not None:
-                Xe = (Lf.to(torch.float64) @ H.mat(Xe)).squeeze(-1) if B.dim() == 1 else Lf.to(torch.float64) @ Xe
-            ok_shape = torch.is_tensor(X) and tuple(X.shape) == tuple(Xe.shape)
-            rec.check(f"solve_shape/{c.name}", lab, ok_shape, f"shape {tuple(X.shape) if torch.is_tensor(X) else type(X)} expected {tuple(Xe.shape)}")
-            rec.check(f"solve_dtype/{c.name}", lab, torch.is_tensor(X) and X.dtype == dt, f"dtype {getattr(X, 'dtype', None)} expected {dt}")
-            if not ok_shape:
-                continue
-            if not bool(torch.isfinite(X).all()):
-                rec.check(f"solve/{c.name}", lab, False, "non-finite entries in the result")
-                continue
-            # ---- which algorithm ran -> tolerance
-            lin32 = bool(cfg.get("linalg_f32"))
-            used_cg, used_lanczos = "cg" in lc.algos, "lanczos" in lc.algos
-            tiny = cfg.get("max_cg") == 3
-            if c.cls != "triangular":
-                direct_expected = H.expect_direct(cfg, N)
-                if direct_expected:
-                    rec.check(f"method_selection/{c.name}", lab, not used_cg,
-                              f"CG ran although fast solves off or N={N} <= max_cholesky_size (log: {lc.msgs[:3]})")
-            # recover the solution when there is an (orthogonal) left factor
-            if Lf is not None and lk == "orth":
-                Xs = (Lf.mT.to(torch.float64) @ H.mat(X).to(torch.float64))
-                Xs = Xs.squeeze(-1) if B.dim() == 1 else Xs
+                err = float((X.to(f64) - Xe).norm() / (Xe.norm() + 1e-300))
+                bound = 4 * kap * max(tol, floor)
+                rec.check(vgrp, lab, bound >= 0.3 or err <= bound, f"CG path with left factor: relative error {err:.3e} > {bound:.1e}", nontrivial=bound < 0.3)
+        else:
+            tau = H.TAU_LANCZOS * max(1.0, kap / 1e2) if used_lanczos else H.tau_direct(dt, kap, N, lin32)
+            if Lf is None or lk == "orth":
+                r = H.backward_residual(Dm, Xs, B)
+                rec.check(vgrp, lab, r <= tau, f"{'lanczos-root' if used_lanczos else 'direct'} path: ||DX-B||/(||D||||X||+||B||) = {r:.3e} > {tau:.1e}; "
+                          f"kappa={kap:.1e} log={sorted(lc.algos)}")
             else:
-                Xs = X
-            if used_cg:
-                tol = float(cfg.get("cg_tol", 1.0))
-                floor = 2e-5 if dt == torch.float64 else 2e-3
-                if Lf is None or lk == "orth":
-                    r = H.cg_mean_rel_residual(Dm, Xs, B)
-                    if wc.cg_not_converged:
-                        # the solver said so itself (NumericalWarning): the property only bounds converged solves;
-                        # with an iteration cap below N this is the documented behaviour
-                        rec.check(f"solve_cg_warned/{c.name}", lab, tiny or cfg.get("max_cg") is not None or r <= 10 * max(tol, floor),
-                                  f"CG gave up (warning) at mean relative residual {r:.2e} with max_cg_iterations={cfg.get('max_cg', 1000)} >> N={N}")
-                    else:
-                        rec.check(f"solve/{c.name}", lab, r <= max(tol, floor),
-                                  f"CG path: mean relative residual {r:.3e} > max(cg_tolerance={tol}, floor {floor}); kappa={kap:.1e}")
-                else:
-                    err = float((X.to(torch.float64) - Xe).norm() / (Xe.norm() + 1e-300))
-                    bound = 1.0 if wc.cg_not_converged else min(1.0, 4 * kap * max(tol, floor))
-                    if bound < 0.3:
-                        rec.check(f"solve_left/{c.name}", lab, err <= bound, f"CG path with left factor: relative error {err:.3e} > {bound:.1e}")
-                    else:
-                        rec.check(f"solve_left/{c.name}", lab, True, nontrivial=False)
-            else:
-                tau = H.TAU_LANCZOS * max(1.0, kap / 1e2) if used_lanczos else H.tau_direct(dt, kap, N, lin32)
-                if Lf is None or lk == "orth":
-                    r = H.backward_residual(Dm, Xs, B)
-                    rec.check(f"solve/{c.name}" if lk == "none" else f"solve_left/{c.name}", lab, r <= tau,
-                              f"{'lanczos-root' if used_lanczos else 'direct'} path: ||DX-B||/(||D||||X||+||B||) = {r:.3e} > {tau:.1e}; kappa={kap:.1e} log={sorted(lc.algos)}")
-                else:
-                    err = float((X.to(torch.float64) - Xe).norm() / (Xe.norm() + 1e-300))
-                    bound = min(0.5, tau * kap * 4)
-                    rec.check(f"solve_left/{c.name}", lab, err <= bound, f"left factor: relative error {err:.3e} > {bound:.1e} (kappa={kap:.1e})")
+                err = float((X.to(f64) - Xe).norm() / (Xe.norm() + 1e-300))
+                bound = min(0.5, tau * kap * 4)
+                rec.check(vgrp, lab, err <= bound, f"left factor: relative error {err:.3e} > {bound:.1e} (kappa={kap:.1e})")
+
+
+def _instances(H, rec, tier, case_names, cases=None, **kw):
+    for label, c, dt, batch, n, make in H.family(tier, case_names, cases=cases, **kw):
+        try:
+            _, D = make()
+        except Exception as e:  # noqa
+            rec.check(f"construct/{c.name}", label, False, f"constructor raised {e!r}"[:300])
+            continue
+        kap = H.kappa_general(D) if c.cls == "triangular" else H.kappa(D)
+        yield label, c, dt, batch, n, make, D, kap
 
 
 def rtc_solve(case_names, tier):
@@ -779,32 +836,23 @@ def rtc_solve(case_names, tier):
     torch = H.torch
     rec = Recorder(PID)
     quick = tier == "quick"
-    for label, c, dt, batch, n, make in H.family(tier, case_names):
-        try:
-            op, D = make()
-        except Exception as e:  # noqa
-            rec.check(f"construct/{c.name}", label, False, f"constructor raised {e!r}"[:300])
-            continue
+    for k, (label, c, dt, batch, n, make, D, kap) in enumerate(_instances(H, rec, tier, case_names)):
         N = D.shape[-1]
-        kap = H.kappa(D)
-        for cfgname, cfg, full in CONFIGS:
-            goes_cg = not H.expect_direct(cfg, N)
-            if goes_cg and (not getattr(c, "cg", True)):
+        for j, (cfgname, cfg, role) in enumerate(CONFIGS):
+            if not H.expect_direct(cfg, N) and not getattr(c, "cg", True):
                 continue  # condition number above the CG bound (1e4): direct methods only
             if cfg.get("linalg_f32") and kap > 1e3:
                 continue
-            if full or not quick:
-                rhs_kinds = ["vec", "mat", "mat1", "batched", "bcast1", "fewer", "mixed1", "extra"]
-                left_kinds = ["none", "orth", "rect", "bat"] if cfgname in ("default", "chol0_tol1e-6") else ["none"]
+            if role == "full" or not quick:
+                pairs = FULL_PAIRS
             else:
-                rhs_kinds = ["mat", "bcast1"] if batch else ["vec", "mat"]
-                left_kinds = ["none"]
-            if quick and n == 6 and dt == torch.float32 and not full:
-                continue
-            _solve_checks(H, rec, c, label, make, cfgname, cfg, rhs_kinds, left_kinds, tier)
+                if (k + j) % 2:  # quick: every side configuration on every second instance (alternating)
+                    continue
+                pairs = [("mat", "none"), ("bcast1", "none")] if batch else [("vec", "none"), ("mat", "none")]
+            _solve_checks(H, rec, c, label, make, D, kap, cfgname, cfg, pairs, tier)
         # iteration cap far below N: either converged or warned, never an exception / wrong shape
         if getattr(c, "cg", True) and N >= 4:
-            _solve_checks(H, rec, c, label, make, CFG_TINY_ITER[0], CFG_TINY_ITER[1], ["mat"], ["none"], tier)
+            _solve_checks(H, rec, c, label, make, D, kap, CFG_TINY_ITER[0], CFG_TINY_ITER[1], [("mat", "none")], tier)
     return rec.obligations()
 
 
@@ -815,49 +863,44 @@ def rtc_solve_entry_history(case_names, tier):
     torch = H.torch
     rec = Recorder(PID)
     quick = tier == "quick"
-    sizes = [2, 4] if quick else [1, 2, 3, 6]
-    batches = [(), (2,), (2, 3)] if quick else None
-    for label, c, dt, batch, n, make in H.family(tier, case_names, sizes=sizes, batches=batches):
-        try:
-            op, D = make()
-        except Exception:  # reported by rtc_solve
-            continue
+    if quick:
+        cb = [(torch.float64, (), 4), (torch.float64, (2,), 4), (torch.float32, (2, 3), 2), (torch.float32, (), 2)]
+    else:
+        cb = H.combos("quick", sizes=[1, 2, 3, 6])
+    for label, c, dt, batch, n, make, D, kap in _instances(H, rec, tier, case_names, combos_=cb):
         N = D.shape[-1]
-        for cfgname, cfg in (("default", {}), ("chol0_tol1e-6", {"mc": 0, "cg_tol": 1e-6}), ("chol0_pc3", {"mc": 0, "min_pc": 0, "max_pc": 3, "cg_tol": 1e-4})):
+        for cfgname, cfg in (("default", {}), ("chol0_tight", {"mc": 0, "cg_tol": "tight"}), ("chol0_pc3", {"mc": 0, "min_pc": 0, "max_pc": 3, "cg_tol": 1e-4})):
             if not H.expect_direct(cfg, N) and not getattr(c, "cg", True):
                 continue
             rk = ["mat", "batched"] if batch else ["vec", "mat"]
             if cfgname != "chol0_pc3":
-                _solve_checks(H, rec, c, label, make, cfgname, cfg, rk, ["none"], tier, entry="torch")
-                _solve_checks(H, rec, c, label, make, cfgname, cfg, rk, ["none", "rect"], tier, entry="functional")
-            for hist in ("cholesky_first", "root_first", "solve_twice", "logdet_first"):
-                if hist in ("cholesky_first",) and cfgname == "chol0_pc3":
+                _solve_checks(H, rec, c, label, make, D, kap, cfgname, cfg, [(r, "none") for r in rk], tier, entry="torch")
+                _solve_checks(H, rec, c, label, make, D, kap, cfgname, cfg, [(rk[0], "none"), (rk[1], "rect")], tier, entry="functional")
+            for hist in ("cholesky_first", "root_first", "rootinv_first", "solve_twice", "logdet_first"):
+                if hist == "cholesky_first" and cfgname == "chol0_pc3":
                     continue
-                _solve_checks(H, rec, c, label, make, cfgname, cfg, rk[-1:], ["none"], tier, history=hist)
+                _solve_checks(H, rec, c, label, make, D, kap, cfgname, cfg, [(rk[-1], "none")], tier, history=hist)
     return rec.obligations()
 
 
 def rtc_dtype_default(case_names, tier):
-    """torch default dtype differs from the operator dtype (float64 default, float32 operators and vice versa)"""
+    """torch default dtype differs from the operator dtype (float64 default with float32 operators; the
+    converse, float32 default with float64 operators, is what every other unit runs)"""
     from contracts.rtc_common import Recorder
     H = helpers()
     torch = H.torch
     rec = Recorder(PID)
     old = torch.get_default_dtype()
     try:
-        for default in (torch.float64,):
-            torch.set_default_dtype(default)
-            for label, c, dt, batch, n, make in H.family(tier, case_names, sizes=[2, 4], batches=[(), (2,)], dtypes=[torch.float32]):
-                try:
-                    op, D = make()
-                except Exception as e:  # noqa
-                    rec.check(f"construct/{c.name}", label + "|default=float64", False, f"constructor raised {e!r}"[:300])
+        torch.set_default_dtype(torch.float64)
+        cb = [(torch.float32, (), 2), (torch.float32, (2,), 4)] + ([] if tier == "quick" else [(torch.float32, (2, 3), 3), (torch.float32, (1,), 6)])
+        for label, c, dt, batch, n, make, D, kap in _instances(H, rec, tier, case_names, combos_=cb):
+            N = D.shape[-1]
+            for cfgname, cfg in (("default", {}), ("chol0_tol1e-4", {"mc": 0, "cg_tol": 1e-4})):
+                if not H.expect_direct(cfg, N) and not getattr(c, "cg", True):
                     continue
-                N = D.shape[-1]
-                for cfgname, cfg in (("default", {}), ("chol0_tol1e-4", {"mc": 0, "cg_tol": 1e-4})):
-                    if not H.expect_direct(cfg, N) and not getattr(c, "cg", True):
-                        continue
-                    _solve_checks(H, rec, c, label + "|default=float64", make, cfgname, cfg, ["mat", "vec"], ["none", "rect"], tier)
+                pairs = [("mat", "none"), ("vec", "none"), ("mat", "rect"), ("batched", "none")]
+                _solve_checks(H, rec, c, label + "|default=float64", make, D, kap, cfgname, cfg, pairs, tier)
     finally:
         torch.set_default_dtype(old)
     return rec.obligations()
@@ -869,27 +912,22 @@ def rtc_triangular(case_names, tier):
     from contracts.rtc_common import Recorder
     H = helpers()
     torch, zoo, O = H.torch, H.zoo, H.O
+    f64 = torch.float64
     rec = Recorder(PID)
-    for label, c, dt, batch, n, make in H.family(tier, case_names, cases=H.TRI):
-        try:
-            op, D = make()
-        except Exception as e:  # noqa
-            rec.check(f"construct/{c.name}", label, False, f"constructor raised {e!r}"[:300])
-            continue
-        N = D.shape[-1]
+    pairs = [(r, "none") for r in ("vec", "mat", "batched", "bcast1", "extra")] + [("vec", "orth"), ("mat", "rect"), ("batched", "orth"), ("batched", "rect")]
+    for label, c, dt, batch, n, make, D, kap in _instances(H, rec, tier, case_names, cases=H.TRI):
+        op, _ = make()
+        N, batch = D.shape[-1], tuple(D.shape[:-2])
         up = c.upper
-        # the stored orientation must describe the data
-        Dm = D.to(torch.float64)
-        other = Dm.tril(-1) if up else Dm.triu(1)
-        assert float(other.abs().max()) == 0.0 if other.numel() else True
+        Dm = D.to(f64)
         flag = getattr(op, "upper", None)
         isdiag = isinstance(op, O.DiagLinearOperator)
+        # the stored orientation must describe the data
         rec.check(f"tri_orientation_flag/{c.name}", label, isdiag or N == 1 or flag == up, f"operator.upper={flag} but the data is {'upper' if up else 'lower'} triangular")
-        for cfgname, cfg in (("default", {}), ("chol0", {"mc": 0, "cg_tol": 1e-8})):
-            _solve_checks(H, rec, c, label, make, cfgname, cfg, ["vec", "mat", "batched", "bcast1", "extra"], ["none", "orth", "rect"], tier)
+        for cfgname, cfg in (("default", {}), ("chol0", {"mc": 0, "cg_tol": "tight"})):
+            _solve_checks(H, rec, c, label, make, D, kap, cfgname, cfg, pairs, tier)
         # torch.linalg.solve_triangular entry point (only defined for TriangularLinearOperator subclasses)
         g = zoo.gen(31)
-        kap = H.kappa_general(D)
         tau = H.tau_direct(dt, kap, N)
         B = zoo.rn(g, *batch, N, 2, dtype=dt)
         if isinstance(op, O.TriangularLinearOperator) and not isdiag:
@@ -897,21 +935,19 @@ def rtc_triangular(case_names, tier):
             ok, X = rec.guard(f"solve_triangular/{c.name}", label, lambda: torch.linalg.solve_triangular(op, B, upper=bool(flag)))
             if ok:
                 rec.check(f"solve_triangular/{c.name}", label, tuple(X.shape) == tuple(B.shape) and H.backward_residual(Dm, X, B) <= tau, "solve_triangular(op, B, upper=op.upper) != D^{-1}B")
-        # Cholesky-factor semantics for both values of `upper`
-        for u in (False, True):
-            if u != up and N > 1:
-                continue  # a lower factor is used with upper=False, an upper factor with upper=True
-            G = (Dm.mT @ Dm) if u else (Dm @ Dm.mT)
+        # Cholesky-factor semantics: a lower factor is used with upper=False, an upper factor with upper=True
+        u = up
+        G = (Dm.mT @ Dm) if u else (Dm @ Dm.mT)
+        for rk, sh in (("mat", (N, 3)), ("batched", (*batch, N, 2))):
             op, _ = make()
-            for rk, sh in (("mat", (N, 3)), ("batched", (*batch, N, 2))):
-                Bc = zoo.rn(g, *sh, dtype=dt)
-                ok, X = rec.guard(f"_cholesky_solve/{c.name}", f"{label}|upper={u}|rhs={rk}", lambda: op._cholesky_solve(Bc, upper=u), allowed=())
-                if ok:
-                    X = X.to_dense() if isinstance(X, O.LinearOperator) else X
-                    es = (*torch.broadcast_shapes(batch, Bc.shape[:-2]), N, Bc.shape[-1])
-                    good = tuple(X.shape) == es and H.backward_residual(G, X, Bc) <= H.tau_direct(dt, kap * kap, N)
-                    rec.check(f"_cholesky_solve/{c.name}", f"{label}|upper={u}|rhs={rk}", good,
-                              f"_cholesky_solve(rhs, upper={u}) is not ({'T^T T' if u else 'T T^T'})^-1 rhs: shape {tuple(X.shape)} vs {es}")
+            Bc = zoo.rn(g, *sh, dtype=dt)
+            lab = f"{label}|upper={u}|rhs={rk}"
+            ok, X = rec.guard(f"_cholesky_solve/{c.name}", lab, lambda: op._cholesky_solve(Bc, upper=u))
+            if ok:
+                X = X.to_dense() if isinstance(X, O.LinearOperator) else X
+                es = (*torch.broadcast_shapes(batch, Bc.shape[:-2]), N, Bc.shape[-1])
+                good = tuple(X.shape) == es and H.backward_residual(G, X, Bc) <= H.tau_direct(dt, kap * kap, N)
+                rec.check(f"_cholesky_solve/{c.name}", lab, good, f"_cholesky_solve(rhs, upper={u}) is not ({'T^T T' if u else 'T T^T'})^-1 rhs: shape {tuple(X.shape)} vs {es}")
     return rec.obligations()
 
 
@@ -945,17 +981,19 @@ def rtc_units(tier):
     mod = "contracts.rtc_C04"
     for ch in _chunks(ALL_NAMES, 5):
         us.append(Unit(f"C04/rtc/solve[{','.join(ch)}]", mod, "rtc_solve", (ch, tier), engine="rtc", timeout_s=1500))
-    for ch in _chunks(ALL_NAMES, 23):
+    for ch in _chunks(ALL_NAMES, 35):
         us.append(Unit(f"C04/rtc/entry_history[{ch[0]}..{ch[-1]}]", mod, "rtc_solve_entry_history", (ch, tier), engine="rtc", timeout_s=1500))
-    us.append(Unit("C04/rtc/default_dtype", mod, "rtc_dtype_default", (ALL_NAMES, tier), engine="rtc", timeout_s=1500))
-    for ch in _chunks(TRI_NAMES, 8):
-        us.append(Unit(f"C04/rtc/triangular[{ch[0]}..{ch[-1]}]", mod, "rtc_triangular", (ch, tier), engine="rtc", timeout_s=1500))
-    us.append(Unit("C04/rtc/perm", mod, "rtc_perm", (tier,), engine="rtc", timeout_s=600))
+    us.append(Unit("C04/rtc/default_dtype+perm", mod, "rtc_dtype_default_and_perm", (ALL_NAMES, tier), engine="rtc", timeout_s=1500))
+    us.append(Unit("C04/rtc/triangular", mod, "rtc_triangular", (TRI_NAMES, tier), engine="rtc", timeout_s=1500))
     return us
 
 
+def rtc_dtype_default_and_perm(case_names, tier):
+    return rtc_dtype_default(case_names, tier) + rtc_perm(tier)
+
+
 RTC_META = {
-    "explanation": "run-time contract for solve on the real code: for every PSD zoo case and 41 local PSD cases "
+    "explanation": "run-time contract for solve on the real code: for every PSD zoo case and 42 local PSD cases "
                    "(prescribed spectra, extra nestings) a fresh operator is solved under every settings combination, rhs kind "
                    "and left-factor kind; the algorithm that really ran is read from the verbose_linalg log and selects the "
                    "tolerance (direct / Lanczos-root / CG); triangular operators are solved in both orientations.",
@@ -969,7 +1007,7 @@ RTC_META = {
         "with a non-invertible left factor the forward error bound kappa*tau is used",
         "method selection (no CG when fast solves are off or N <= max_cholesky_size) is taken from the settings documentation",
     ],
-    "families": "28 PSD zoo cases + 41 local PSD cases (geometric/clustered/uniform spectra, kappa up to 1e6 direct / 1e4 CG, Kronecker "
+    "families": "28 PSD zoo cases + 42 local PSD cases (geometric/clustered/uniform spectra, kappa up to 1e6 direct / 1e4 CG, Kronecker "
                 "x3, Kronecker+diag variants, inverse-of-Cholesky, Cholesky-of-structured, block/repeat/expand nestings, SKI, kernel) x "
                 "dtypes {f32,f64} x batch {(),(2,),(1,),(2,3)} (+(1,2),(3,1,2) thorough) x sizes {1,2,4,6} (+3,9 thorough) x 15 settings "
                 "combinations (max_cholesky_size 0/N-1/N/default, fast solves/log_prob, cg_tolerance 1/1e-2/1e-4/1e-6, max_cg_iterations, "
